@@ -45,6 +45,7 @@ class Sym:
     def __init__(self, s, name=None, n=None):
         self.s, self.name, self.n = s, name, n
         self._vars = {}
+        self.attrs = {}          # res.attrs.update(..)
 
     def __str__(self):
         return fmt(self)
@@ -130,6 +131,8 @@ def fmt(v) -> str:
         for var, ns in sorted(v._vars.items()):
             for k, x in sorted(ns.attrs.items()):
                 s += f";{var}.{k}={fmt(x)}"
+        for k, x in sorted(v.attrs.items()):
+            s += f";{k}={fmt(x)}"
         return s
     if isinstance(v, (bool, np.bool_)):
         return "True" if v else "False"
@@ -173,6 +176,8 @@ def fmt(v) -> str:
             return "dflt_srange"
         if v.ndim == 1 and v.dtype.kind in "iu":
             return "[" + ",".join(str(int(x)) for x in v) + "]"
+        if Reg.ids.get("mode") == "spi" and v.ndim == 2 and v.shape[1] == 2 and v.dtype == np.int16:
+            return "[" + ",".join(_ilist(r) for r in v) + "]"
         if obj is not None and v.shape == obj.shape:
             if Reg.ids.get("mode") == "zonal":
                 return "fill(obj).data"
@@ -686,6 +691,269 @@ def _i_tbinit(c):
     return f"ok ?{a._obj.dims}"
 
 
+
+# ================================================================ the four older glue programs
+
+# --- IterativeAggregation._iteragg through x.hdc.iteragg.sum / mean / full (REAL execution, no stubs)
+_EPOCH = np.datetime64("2020-01-01")
+
+
+def _ia_axis(kind, n):
+    """(tokens, values) of a unique axis; kinds i / j: integers with the falsy 0 inside / in front, f: floats with 0.0, d: dates"""
+    if kind == "i":
+        v = [5, 0, 7, 9, 11, 13][:n]
+    elif kind == "j":
+        v = [0, 5, 7, 9, 11, 13][:n]
+    elif kind == "f":
+        v = [1.5, 0.0, 2.5, 3.5, 4.5, 5.5][:n]
+    else:
+        return [f"d{i}" for i in range(n)], [_EPOCH + np.timedelta64(10 * i, "D") for i in range(n)]
+    return [repr(x) for x in v], v
+
+
+def _ia_off(kind):
+    return {"i": ("99", 99), "j": ("99", 99), "f": ("99.5", 99.5), "d": ("d99", _EPOCH + np.timedelta64(995, "D"))}[kind]
+
+
+def _ia_labels(kind, n):
+    toks, _ = _ia_axis(kind, n)
+    out = ["none", toks[0], toks[n // 2], toks[-1], _ia_off(kind)[0]]
+    out += [t for t in ("0", "0.0") if t in toks]
+    return list(dict.fromkeys(out))
+
+
+_IA_N = ["none", "0", "1", "2", "3", "7"]
+GRIDS["iteragg"] = (
+    [_d(kind=k, len=n, n=nn, begin=b, end=e, func="full", dim="time", style="omit" if (n + len(b)) % 2 else "kw")
+     for k, lens in (("i", range(1, 7)), ("j", (2, 5)), ("f", (2, 5)), ("d", (1, 4)))
+     for n in lens for nn in _IA_N for b in _ia_labels(k, n) for e in _ia_labels(k, n)] +
+    [_d(kind=k, len=4, n=nn, begin=b, end=e, func=f, dim=dm, style=st)
+     for k in ("i", "d") for nn in ("none", "0", "2") for b in ("none", 1, "off") for e in ("none", 1, "off")
+     for f, dm, st in (("sum", "time", "kw"), ("mean", "time", "pos"), ("full", "time", "pos"), ("sum", "band", "kw"),
+                       ("mean", "band", "pos"), ("full", "band", "omit"), ("full", "nodim", "kw"), ("sum", "nodim", "omit"),
+                       ("sum", "dflt", "omit"), ("full", "dflt-band", "omit"))])
+
+
+def _ia_tok(c, which):
+    v = c[which]
+    if v == "off":
+        return _ia_off(c["kind"])[0]
+    if isinstance(v, int):
+        return _ia_axis(c["kind"], c["len"])[0][v]
+    return v
+
+
+def _m_iteragg(c):
+    toks, _ = _ia_axis(c["kind"], c["len"])
+    objdim = "band" if c["dim"] in ("band", "dflt-band") else "time"
+    dim = {"dflt": "time", "dflt-band": "time"}.get(c["dim"], c["dim"])      # default of the def lines: dim="time"
+    return (f"iteragg {int(c['func'] != 'full')} {int(dim == objdim)} {int(dim == 'time')} [{','.join(toks)}] "
+            f"{c['n']} {_ia_tok(c, 'begin')} {_ia_tok(c, 'end')}")
+
+
+def _i_iteragg(c):
+    import xarray
+    import hdc.algo  # noqa: F401
+    Reg.reset()
+    toks, vals = _ia_axis(c["kind"], c["len"])
+    n = len(toks)
+    objdim = "band" if c["dim"] in ("band", "dflt-band") else "time"
+    index = np.array(vals, dtype="datetime64[ns]") if c["kind"] == "d" else np.array(vals)
+    # cell i along the axis holds 2**i: a nansum / nanmean / selection identifies the window
+    x = xarray.DataArray(np.tile(2.0 ** np.arange(n), (2, 1)), dims=("x", objdim), coords={objdim: index})
+    pdix = x[objdim].to_index()
+    by_str = {str(pdix[i]): toks[i] for i in range(n)}
+
+    def label(tok):
+        if tok == "none":
+            return None
+        if tok in toks:
+            v = vals[toks.index(tok)]
+        else:
+            v = _ia_off(c["kind"])[1]
+        return v
+
+    opt = [("n", val(c["n"]), False), ("dim", c["dim"], c["dim"].startswith("dflt")),
+           ("begin", label(_ia_tok(c, "begin")), False), ("end", label(_ia_tok(c, "end")), False), ("method", None, False)]
+    dim = "time" if c["dim"].startswith("dflt") else c["dim"]
+
+    def window(mask):
+        m = int(mask)
+        if m != mask or m <= 0:
+            return "?"
+        jj = (m & -m).bit_length() - 1
+        ii = m.bit_length()
+        return f"{jj}:{ii}" if m == (1 << ii) - (1 << jj) else "?"
+
+    def show(o):
+        a = o.attrs
+        k = a.get("agg_n")
+        if c["func"] == "full":
+            row = o.values[0]
+            w = window(row.sum()) if o.dims == x.dims and row.size == k else "?"
+        else:
+            row = o.values.reshape(2, -1)[0]
+            w = window(row[0] * (k if c["func"] == "mean" else 1)) if row.size == 1 else "?"
+        s = f"sel({w};{by_str.get(a.get('agg_start'), '?')};{by_str.get(a.get('agg_stop'), '?')};{k})"
+        if c["func"] == "full":
+            return s
+        s = f"reduce({s})"
+        if dim in o.dims:
+            if not (dim == "time" and o.sizes["time"] == 1):
+                return "?" + s
+            t = o.time.values[0]
+            pos = [i for i in range(n) if index[i] == t]
+            return f"expand({s},{toks[pos[0]] if pos else '?'})"
+        return s
+
+    try:
+        with warnings.catch_warnings():
+            warnings.simplefilter("ignore")
+            gen = call(getattr(x.hdc.iteragg, c["func"]), [], opt, c["style"])
+            return "ok [" + ",".join(show(o) for o in gen) + "]"
+    except Exception as e:  # pylint: disable=broad-except
+        return "exc " + type(e).__name__
+
+
+MODEL["iteragg"] = _m_iteragg
+IMPL["iteragg"] = _i_iteragg
+
+
+# --- utils.to_linspace (REAL execution: pure NumPy)
+GRIDS["linspace"] = (
+    [_d(kind="int", labels=l) for l in ([3, 1, 3], [1, 2, 3], [5, 5, 5], [2, 1, 0], [0], [], [-1, 10, 9], [7, 3, 7, 3, 1],
+                                        [0, 0, 1, 1, 2, 2], [32767, -32768, 0])] +
+    [_d(kind="str", labels=l) for l in (["10", "9"], ["9", "10", "9", "10"], ["a", "b", "a"], ["b", "a"], ["x"], [],
+                                        ["10", "2", "1"], ["A", "a", "B"], ["1", "01", "1"], ["ab", "a", "abc", "a"])])
+MODEL["linspace"] = lambda c: f"linspace {c['kind']} [{','.join(str(v) for v in c['labels'])}]"
+
+
+def _i_linspace(c):
+    from hdc.algo.utils import to_linspace
+    x = np.array(c["labels"], dtype="int64" if c["kind"] == "int" else "str")
+    try:
+        pix, keys = to_linspace(x)
+    except Exception as e:  # pylint: disable=broad-except
+        return "exc " + type(e).__name__
+    if not isinstance(keys, list):
+        return f"ok ?{type(keys).__name__}"
+    return f"ok {_ilist(np.asarray(pix).tolist())}|[{','.join(str(k) for k in keys)}]"
+
+
+IMPL["linspace"] = _i_linspace
+
+# --- utils.get_calibration_indices (REAL execution: pure NumPy / pandas); the axis in days from _EPOCH
+_CAL_AXES = [[0, 10, 20, 30, 40, 50], [0, 10, 20, 30, 40, 50, 60, 70], [0, 0, 10, 10, 20, 20, 30, 30, 40, 40, 50, 50]]
+
+
+def _cal_bounds(axis):
+    return [-5, 0, 10, 15, 30, axis[-1], axis[-1] + 5]
+
+
+def _cal_groups(n):
+    """(labels, num_groups token): alternating, alternating with the number given / one too many (an empty group),
+    three groups, two blocks, labels with a gap (group 1 empty)"""
+    alt = [i % 2 for i in range(n)]
+    return [(alt, "none"), (alt, "2"), (alt, "3"), (alt, "1"), ([i % 3 for i in range(n)], "none"),
+            ([int(i >= n // 2) for i in range(n)], "none"), ([2 * (i % 2) for i in range(n)], "none")]
+
+
+GRIDS["calidx"] = [_d(axis=a, begin=b, end=e, groups=None, ng="none", how="str" if (b + e) % 2 else "dt64")
+                   for a in _CAL_AXES for b in _cal_bounds(a) for e in _cal_bounds(a)] + \
+                  [_d(axis=a, begin=b, end=e, groups=g, ng=ng, how="str" if (b + e) % 2 else "dt64")
+                   for a in _CAL_AXES for b in _cal_bounds(a) for e in _cal_bounds(a) for g, ng in _cal_groups(len(a))]
+
+
+def _m_calidx(c):
+    if c["groups"] is None:
+        return f"calidx {_ilist(c['axis'])} {c['begin']} {c['end']}"
+    return f"calidxg {_ilist(c['axis'])} {c['begin']} {c['end']} {_ilist(c['groups'])} {c['ng']}"
+
+
+def _day(d, how="dt64"):
+    v = _EPOCH + np.timedelta64(int(d), "D")
+    return str(v) if how == "str" else v
+
+
+def _i_calidx(c):
+    import pandas as pd
+    from hdc.algo.utils import get_calibration_indices
+    time = pd.DatetimeIndex([_day(d) for d in c["axis"]])
+    rng = (_day(c["begin"], c["how"]), _day(c["end"], c["how"]))
+    try:
+        if c["groups"] is None:
+            r = get_calibration_indices(time, rng)
+            if not (isinstance(r, tuple) and len(r) == 2):
+                return f"ok ?{type(r).__name__}"
+            return f"ok ({int(r[0])},{int(r[1])})"
+        g = np.array(c["groups"], dtype="int16")
+        if c["ng"] == "none":
+            r = get_calibration_indices(time, rng, g)
+        else:
+            r = get_calibration_indices(time, rng, g, int(c["ng"]))
+        if not (isinstance(r, np.ndarray) and r.dtype == np.int16 and r.ndim == 2):
+            return f"ok ?{type(r).__name__}"
+        return "ok [" + ",".join(_ilist(row) for row in r) + "]"
+    except Exception as e:  # pylint: disable=broad-except
+        return "exc " + type(e).__name__
+
+
+MODEL["calidx"] = _m_calidx
+IMPL["calidx"] = _i_calidx
+
+# --- PixelAlgorithms.spi (recording stubs for xarray.apply_ufunc; get_calibration_indices / to_linspace run for real)
+_SPI_AXIS = [0, 10, 20, 30, 40, 50]
+_SPI_CAL = [("none", "none"), ("none", "30"), ("10", "none"), ("10", "40"), ("15", "45"), ("-5", "55"), ("60", "none"),
+            ("none", "-5"), ("40", "10"), ("20", "20"), ("25", "25"), ("10", "20"), ("20", "15"), ("0", "50"), ("50", "50"),
+            ("55", "60"), ("-9", "-5")]
+_SPI_GROUPS = [None, ["a", "b", "a", "b", "a", "b"], ["10", "9", "10", "9", "10", "9"], ["a", "b"],
+               ["a", "b", "c", "a", "b", "c"], ["b", "b", "b", "a", "a", "a"], ["1", "1", "1", "1", "1", "1"]]
+GRIDS["spi"] = [_d(td=td, cb=cb, ce=ce, nodata=nda, attr=at, groups=g, style=STYLES[(i + j + k) % 3])
+                for td in (1, 0) for i, (cb, ce) in enumerate(_SPI_CAL) for j, nda in enumerate(("none", "0", "-9999", "0.0"))
+                for at in ("none", "0", "-9999") for k, g in enumerate(_SPI_GROUPS)
+                if td or (i < 2 and k < 2)]
+
+
+def _m_spi(c):
+    head = f"{c['td']} {_ilist(_SPI_AXIS)} {c['cb']} {c['ce']} {c['nodata']} {c['attr']}"
+    if c["groups"] is None:
+        return "spi " + head
+    return f"spig {head} [{','.join(c['groups'])}]"
+
+
+def _i_spi(c):
+    import pandas as pd
+    import xarray
+    import hdc.algo  # noqa: F401
+    Reg.reset()
+    tix = pd.DatetimeIndex([_day(d) for d in _SPI_AXIS])
+    n = len(_SPI_AXIS)
+    dim = "time" if c["td"] else "t"
+    x = xarray.DataArray(np.arange(2 * n).reshape(2, n).astype("float32"), dims=("x", dim), coords={dim: tix})
+    if c["attr"] != "none":
+        x.attrs["nodata"] = val(c["attr"])
+    Reg.obj = Reg.name(x, "obj")
+    Reg.name(x.data, "obj.data")
+    Reg.ids["mode"] = "spi"
+    days = {str(t): d for t, d in zip(tix, _SPI_AXIS)}
+    g = c["groups"]
+    if g is not None and g[0].isdigit():
+        g = [int(v) for v in g]             # integer labels: the accessor converts with dtype="str"
+    opt = [("calibration_begin", None if c["cb"] == "none" else _day(c["cb"], "str"), False),
+           ("calibration_end", None if c["ce"] == "none" else _day(c["ce"], "str"), False),
+           ("nodata", val(c["nodata"]), False), ("groups", g, False)]
+
+    def thunk():
+        r = call(x.hdc.algo.spi, [], opt, c["style"])
+        if isinstance(r, Sym):
+            r.attrs = {k: days.get(v, "?" + str(v)) for k, v in r.attrs.items()}
+        return r
+    return observe(thunk)
+
+
+MODEL["spi"] = _m_spi
+IMPL["spi"] = _i_spi
+
 MODEL.update(whits=_m_whits, whitsvc=_m_whitsvc, whitswcv=_m_whitswcv, whitint=_m_whitint, croo=_m_croo,
              autocorr=_m_autocorr, rollsum=_m_rollsum, meangrp=_m_meangrp, zonal=_m_zonal)
 IMPL.update(whits=_i_whits, whitsvc=_i_whitsvc, whitswcv=_i_whitswcv, whitint=_i_whitint, croo=_i_croo,
@@ -696,7 +964,9 @@ IMPL.update(whits=_i_whits, whitsvc=_i_whitsvc, whitswcv=_i_whitswcv, whitint=_i
 ACCESSOR = dict(whits="whit.whits", whitsvc="whit.whitsvc", whitswcv="whit.whitswcv", whitint="whit.whitint",
                 croo="algo.croo", lroo="algo.lroo", autocorr="algo.autocorr", mktrend="algo.mktrend",
                 rollsum="rolling.sum", meangrp="algo.mean_grp", zonal="zonal.mean", anom="anom.ratio/diff",
-                period="dekad.<properties>", tbinit="AccessorTimeBase.__init__")
+                period="dekad.<properties>", tbinit="AccessorTimeBase.__init__",
+                iteragg="iteragg.sum/mean/full", linspace="utils.to_linspace",
+                calidx="utils.get_calibration_indices", spi="algo.spi")
 
 
 def model_lines(name):
